@@ -27,6 +27,22 @@ pub struct Out {
     pub units: usize,
 }
 
+/// The dump clamps integers to +-2^30 (TLC has 32-bit integers).  Run ends of a run-end encoded array may
+/// legitimately be that large, and two clamped run ends are no longer strictly increasing for the
+/// specification: such a batch is not dumped (like an oversized one, it is left to the recorded
+/// `validate_full` observation).
+fn has_clamped_run_ends(d: &Value) -> bool {
+    let kids = d["kids"].as_array();
+    if d["t"]["k"] == "ree" {
+        if let Some(re) = kids.and_then(|k| k.first()) {
+            if re["bufs"][0]["ints"].as_array().is_some_and(|a| a.iter().any(|x| x.as_i64().is_some_and(|v| v.abs() >= dump::HUGE))) {
+                return true;
+            }
+        }
+    }
+    kids.is_some_and(|k| k.iter().any(has_clamped_run_ends))
+}
+
 const MAX_DUMP_ROWS: usize = 200;
 const MAX_EVENT_WEIGHT: usize = 9000;
 
@@ -46,13 +62,14 @@ impl Out {
         self.rows += b.num_rows();
         // the crate's own full validation of what its reader returned (an observation, judged by the specification)
         let vf = b.columns().iter().all(|c| c.to_data().validate_full().is_ok()) && RecordBatch::try_new_with_options(b.schema(), b.columns().to_vec(), &arrow_array::RecordBatchOptions::new().with_row_count(Some(b.num_rows()))).is_ok();
-        let small = b.num_rows() <= MAX_DUMP_ROWS && b.columns().iter().all(|c| c.len() <= MAX_DUMP_ROWS);
+        let mut small = b.num_rows() <= MAX_DUMP_ROWS && b.columns().iter().all(|c| c.len() <= MAX_DUMP_ROWS);
         let mut cols = vec![];
         let mut w = 0;
         if small {
             for c in b.columns() {
                 let d = dump::to_layout(&c.to_data());
                 w += dump::weight(&d);
+                small &= !has_clamped_run_ends(&d);
                 cols.push(d);
             }
         }
